@@ -424,6 +424,10 @@ func TestC03Returns(t *testing.T) {
 		for i := 0; i < ns; i++ {
 			s := bgen.GenSend(t, false, 0)
 			s.ET = rapid.SampledFrom([]string{"A", "A", "A", "A", "A", "A", "A", "A", "A", "B", "Z"}).Draw(t, "sendET2")
+			if rapid.IntRange(0, 9).Draw(t, "unknownType2") == 0 {
+				// a type nothing is registered for, of unusual length or encoding: Send must fail cleanly, not panic
+				s.ET = rapid.SampledFrom(bgen.UnknownTypes).Draw(t, "unknownET2")
+			}
 			p := &sendPlan{S: s}
 			p.BlockIDs = rapid.SliceOfNDistinct(rapid.SampledFrom(used), 0, 4, rapid.ID[string]).Draw(t, "block")
 			p.Mode = rapid.SampledFrom([]int{0, 0, 1, 2, 2, 2, 3, 3, 3}).Draw(t, "mode")
